@@ -35,12 +35,14 @@ SCN = {
 }
 
 
-def inst(kind, n, tiers, prop='VF_ACCT', end=''):
+def inst(kind, n, tiers, prop='VF_ACCT', end='', rt=9, choice=9):
     scn, extra, text = SCN[kind]
     defs = {'VF_N': n, 'VF_SCN': scn, 'VF_MQ_CAP': 6, prop: 1}
     defs.update(extra)
+    defs.update({'VF_RT': rt, 'VF_CHOICE': choice})
+    sfx = ('_to%d' % rt if rt != 9 else '') + ('_c%d' % choice if choice != 9 else '')
     return {
-        'name': '%s_n%d' % (kind, n), 'src': '../C08/hist.cpp', 'engine': 'cbmc', 'shims': ['moodycamel'],
+        'name': '%s_n%d' % (kind, n) + sfx, 'src': '../C08/hist.cpp', 'engine': 'cbmc', 'shims': ['moodycamel'],
         'repo_sources': _SRC, 'rt_defs': {'VF_HAVE_THREAD_MODEL': 1}, 'models': ['aligned_alloc'],
         'defs': defs,
         'cflags': ['-DDISPENSO_TUNE_STEAL_RING_SHARING=1', '-DDISPENSO_TUNE_FIXED_SPIN_ITERS=2',
@@ -54,6 +56,7 @@ def inst(kind, n, tiers, prop='VF_ACCT', end=''):
 
 
 INSTANCES = [
+    inst('ring_resize', 1, ['quick', 'thorough'], rt=0, choice=0),
     inst('ring_resize', 1, ['quick', 'thorough']),
     inst('steal_resize', 1, ['quick', 'thorough']),
     inst('steal_worker', 1, ['quick', 'thorough']),
